@@ -1,5 +1,6 @@
 (* C12 model driver.  stdin, one case per line:
-     <id> V <type> <op2 token>...                      two vectors a, b on one resource
+     <id> V <type> <op2 token>...                      two vectors a, b (special member functions: swap swapstd cp?? mv??[d]
+                                                        cc?? cx??<res> mc?? mx??<res><s|d>, ?? = ab | ba, see c12_reusable.cpp)
      <id> M <type> <interval> <cycles> <op token>...   one managed vector, the same workload every cycle
    type: i (int) c (counting) s (SwissString) n (nested) b (std::basic_string: destructive self-move)
    prints the canonical line the C++ drivers print, then " | e=<model ghost error>". *)
@@ -15,7 +16,12 @@ let parse_op (f : string list) : op =
   | t -> failwith ("bad op " ^ t)
 let parse_op2 (tok : string) : op2 =
   match tok with
-  | "swap" -> Swap | "cpab" -> CopyAB | "cpba" -> CopyBA | "mvab" -> MoveAB | "mvba" -> MoveBA
+  | "swap" | "swapstd" -> Swap | "cpab" -> CopyAB | "cpba" -> CopyBA | "mvab" -> MoveAB | "mvba" -> MoveBA
+  | "mvabd" -> MoveABx | "mvbad" -> MoveBAx
+  | "ccab" | "cxab1" | "cxab2" -> CCtorAB | "ccba" | "cxba1" | "cxba2" -> CCtorBA
+  | "mcab" -> MCtorAB | "mcba" -> MCtorBA
+  | "mxab1s" | "mxab2s" -> MXCtorAB | "mxba1s" | "mxba2s" -> MXCtorBA
+  | "mxab1d" | "mxab2d" -> MXCtorABx | "mxba1d" | "mxba2d" -> MXCtorBAx
   | _ -> (match String.split_on_char '.' tok with
           | "a" :: f -> OnA (parse_op f) | "b" :: f -> OnB (parse_op f) | _ -> failwith ("bad token " ^ tok))
 let zl l = String.concat "," (List.map (fun z -> string_of_int (int_of_z z)) l)
